@@ -75,10 +75,13 @@ Definition obs_eqb (a b : dec_obs) : bool :=
   Bool.eqb s1 s2 && Z.eqb u1 u2 && Z.eqb c1 c2 && N.eqb h1 h2 && N.eqb p1 p2 && Z.eqb l1 l2 && Z.eqb r1 r2.
 
 (* one encode + decode case *)
-Definition seg_case (comp sc : bool) (pat len seed : Z) (cp : option (list Z)) (cplen : Z)
+(* payload_back: whether the implementation's decoded payload equalled the original one (the model must say the same).
+   seg_case_p: the payload is given as bytes (payloads found by a search of the harness, printed in hex);
+   seg_case: the payload is a descriptor expanded here *)
+Definition seg_case_p (comp sc : bool) (p : list Z) (cp : option (list Z)) (cplen : Z)
     (total : Z) (head trailer : list Z) (full : option (list Z)) (post : Z * Z * N)
-    (rest : list Z) (dec : dec_obs) : bool :=
-  let p := gen_payload pat len seed in
+    (rest : list Z) (dec : dec_obs) (payload_back : bool) : bool :=
+  let len := Z.of_nat (List.length p) in
   let c := if comp then Some (case_oracle cp cplen p) else None in
   match encode_segment_full c sc p with
   | Err => false
@@ -95,20 +98,27 @@ Definition seg_case (comp sc : bool) (pat len seed : Z) (cp : option (list Z)) (
           Z.eqb (uncompressed_len (seg_header s)) u && Z.eqb (compressed_len (seg_header s)) cl && N.eqb (seg_crc32 s) c32)
       && match decode_segment c (bs ++ rest) with
          | Err => false
-         | Ok (s', r) => obs_eqb (obs_of s' r) dec && list_eqb (seg_data s') p && list_eqb r rest
+         | Ok (s', r) => obs_eqb (obs_of s' r) dec && Bool.eqb (list_eqb (seg_data s') p) payload_back && list_eqb r rest
          end
   end.
 
 (* outcome class of encode-then-decode in the model: true iff both succeed.  Used for records on which the
    implementation encoded a payload and then failed to decode its own output (the case term is `negb (seg_decodes ...)`):
    the model has exactly the size checks of decodeSegmentPayload, so it must fail on the same payloads and no others. *)
-Definition seg_decodes (comp sc : bool) (pat len seed : Z) (cp : option (list Z)) (cplen : Z) (rest : list Z) : bool :=
-  let p := gen_payload pat len seed in
+Definition seg_decodes_p (comp sc : bool) (p : list Z) (cp : option (list Z)) (cplen : Z) (rest : list Z) : bool :=
   let c := if comp then Some (case_oracle cp cplen p) else None in
   match encode_segment_full c sc p with
   | Err => false
   | Ok (bs, _) => match decode_segment c (bs ++ rest) with Err => false | Ok _ => true end
   end.
+
+Definition seg_case (comp sc : bool) (pat len seed : Z) (cp : option (list Z)) (cplen : Z)
+    (total : Z) (head trailer : list Z) (full : option (list Z)) (post : Z * Z * N)
+    (rest : list Z) (dec : dec_obs) (payload_back : bool) : bool :=
+  seg_case_p comp sc (gen_payload pat len seed) cp cplen total head trailer full post rest dec payload_back.
+
+Definition seg_decodes (comp sc : bool) (pat len seed : Z) (cp : option (list Z)) (cplen : Z) (rest : list Z) : bool :=
+  seg_decodes_p comp sc (gen_payload pat len seed) cp cplen rest.
 
 (* the decoder on arbitrary input: expected = None for an error *)
 Definition raw_case (comp : bool) (input : list Z) (oracle_in oracle_out : option (list Z))
